@@ -356,7 +356,7 @@ func c08Gates(m *MClaims, c psatoken.IClaims, kp keyPair, st *Stats, extRuleBrok
 
 func TestC08_Gates(t *testing.T) {
 	st := NewStats("C08", "TestC08_Gates", "rapid: valid and invalid claims-sets of both profiles (C01's class-vector generator, as struct literals), and instances of a registered extension profile whose own Validate() rule is met or broken, through the seven validating entry points (SetClaims, ValidateAndEncode CBOR/JSON, ValidateAndSign, DecodeAndValidate CBOR/JSON(+deprecated alias)/COSE): each fails iff Validate() fails, emits/attaches nothing on failure, and equals its non-validating sibling on success. Non-trivial = invalid set whose defect is not merely a missing lifecycle; distinct = class vector")
-	st.Require = []string{"valid", "invalid", "gate=SetClaims", "gate=EncodeCBOR", "gate=EncodeJSON", "gate=ValidateAndSign", "gate=DecodeCBOR", "gate=DecodeJSON", "gate=DecodeCOSE", "invalid-encodable", "extension-profile", "extension-own-rule-broken"}
+	st.Require = []string{"valid", "invalid", "gate=SetClaims", "gate=EncodeCBOR", "gate=EncodeJSON", "gate=ValidateAndSign", "gate=DecodeCBOR", "gate=DecodeJSON", "gate=DecodeCOSE", "invalid-encodable", "extension-profile", "extension-own-rule-broken", "impl=by-value", "impl=no-instance-id"}
 	defer st.Flush(t)
 	registerMu.Lock()
 	defer registerMu.Unlock()
@@ -365,8 +365,43 @@ func TestC08_Gates(t *testing.T) {
 	if err := psatoken.RegisterProfile(extP2Profile{}); err != nil {
 		t.Fatalf("VERIF-INFRA: %v", err)
 	}
+	if err := psatoken.RegisterProfile(noInstIDProfile{}); err != nil {
+		t.Fatalf("VERIF-INFRA: %v", err)
+	}
 	rapid.Check(t, func(t *rapid.T) {
 		p := drawProf(t)
+		if rapid.IntRange(0, 5).Draw(t, "other-implementation") == 0 {
+			// IClaims implementations of other make: a decorator used BY
+			// VALUE, and an instance of a derived profile that excludes the
+			// instance ID; judged by pure differentials (no rule model)
+			mm := GenAny(t, P2)
+			if genBool.Draw(t, "forcevalid") {
+				mm = GenValid(t, P2, false)
+			}
+			lit, ok := mm.BuildLiteral()
+			if !ok {
+				st.Class("unrepresentable")
+				return
+			}
+			var oc psatoken.IClaims
+			what := rapid.SampledFrom([]string{"by-value", "no-instance-id", "no-instance-id"}).Draw(t, "impl")
+			if what == "by-value" {
+				oc = ByValueClaims{lit.(*psatoken.P2Claims)}
+			} else {
+				n := noInstIDProfile{}.GetClaims().(*NoInstIDClaims)
+				prof, canon := n.Profile, n.CanonicalProfile
+				n.P2Claims = *(lit.(*psatoken.P2Claims))
+				n.Profile, n.CanonicalProfile = prof, canon
+				n.InstID = nil
+				oc = n
+			}
+			kp := keyFor(rapid.SampledFrom(fastAlgs).Draw(t, "alg"), 0)
+			if msg := c08Differential(oc, kp); msg != "" {
+				t.Fatalf("C08 violated (%s implementation): %s\n [%s]", what, msg, mm.ClassVector())
+			}
+			st.Case(what+"|"+mm.ClassVector(), "other-implementation", "impl="+what)
+			return
+		}
 		m := GenAny(t, p)
 		c, ok := m.BuildLiteral()
 		if !ok {
@@ -568,3 +603,62 @@ func TestC08_GatesInContext(t *testing.T) {
 var _ = json.Marshal
 
 func plainJStr(b []byte) string { return string(b) }
+
+// c08Differential: the seven gates on an arbitrary IClaims implementation,
+// judged only against Validate() and the non-validating siblings.
+func c08Differential(c psatoken.IClaims, kp keyPair) string {
+	valid := c.Validate() == nil
+	ev := &psatoken.Evidence{}
+	if err := ev.SetClaims(c); (err == nil) != valid {
+		return fmt.Sprintf("SetClaims: err=%v, Validate() valid=%v", err, valid)
+	}
+	pc, pcErr := psatoken.EncodeClaimsToCBOR(c)
+	vc, vcErr := psatoken.ValidateAndEncodeClaimsToCBOR(c)
+	if (vcErr == nil) != (valid && pcErr == nil) || (vcErr == nil && !bytes.Equal(pc, vc)) {
+		return fmt.Sprintf("ValidateAndEncodeClaimsToCBOR err=%v vs EncodeClaimsToCBOR err=%v, valid=%v", vcErr, pcErr, valid)
+	}
+	pj, pjErr := psatoken.EncodeClaimsToJSON(c)
+	vj, vjErr := psatoken.ValidateAndEncodeClaimsToJSON(c)
+	if (vjErr == nil) != (valid && pjErr == nil) || (vjErr == nil && !bytes.Equal(pj, vj)) {
+		return fmt.Sprintf("ValidateAndEncodeClaimsToJSON err=%v vs EncodeClaimsToJSON err=%v, valid=%v", vjErr, pjErr, valid)
+	}
+	e1, e2 := &psatoken.Evidence{Claims: c}, &psatoken.Evidence{Claims: c}
+	ptok, psErr := e1.Sign(kp.Signer())
+	_, vsErr := e2.ValidateAndSign(kp.Signer())
+	if (vsErr == nil) != (valid && psErr == nil) {
+		return fmt.Sprintf("ValidateAndSign err=%v vs Sign err=%v, valid=%v", vsErr, psErr, valid)
+	}
+	if pcErr == nil {
+		d0, derr := psatoken.DecodeClaimsFromCBOR(pc)
+		_, verr := psatoken.DecodeAndValidateClaimsFromCBOR(pc)
+		if (verr == nil) != (derr == nil && d0.Validate() == nil) {
+			return fmt.Sprintf("DecodeAndValidateClaimsFromCBOR err=%v; plain decode err=%v, then Validate() = %v", verr, derr, valOf(d0, derr))
+		}
+	}
+	if pjErr == nil {
+		d0, derr := psatoken.DecodeClaimsFromJSON(pj)
+		_, verr := psatoken.DecodeAndValidateClaimsFromJSON(pj)
+		if (verr == nil) != (derr == nil && d0.Validate() == nil) {
+			return fmt.Sprintf("DecodeAndValidateClaimsFromJSON err=%v; plain decode err=%v, then Validate() = %v", verr, derr, valOf(d0, derr))
+		}
+	}
+	if psErr == nil {
+		d0, derr := psatoken.DecodeEvidenceFromCOSE(ptok)
+		_, verr := psatoken.DecodeAndValidateEvidenceFromCOSE(ptok)
+		var v0 error
+		if derr == nil {
+			v0 = d0.Claims.Validate()
+		}
+		if (verr == nil) != (derr == nil && v0 == nil) {
+			return fmt.Sprintf("DecodeAndValidateEvidenceFromCOSE err=%v; plain decode err=%v, then Validate() of its claims = %v", verr, derr, v0)
+		}
+	}
+	return ""
+}
+
+func valOf(c psatoken.IClaims, derr error) error {
+	if derr != nil || c == nil {
+		return nil
+	}
+	return c.Validate()
+}
